@@ -48,6 +48,12 @@ type Env struct {
 	H        http.Handler
 	cur      string // shape currently on disk ("" = unknown)
 	cwdSaved string // working directory to return to after a relative root spelling
+	// KeyTag, when set, is put in front of the finding keys of Observe: a
+	// slice whose pre-states form a class of their own names it here.
+	KeyTag string
+	// WitExtra, when set, is added to the witnesses of Observe ("slice_case").
+	WitExtra  interface{}
+	mtimeSeen map[string]bool
 }
 
 // NewEnv creates <workdir>/<label>/sandbox-…/root with a long random-looking
@@ -168,8 +174,59 @@ func (e *Env) Materialise(t davtree.Tree) error {
 			}
 		}
 	}
+	// Modification times: a served directory holds files of any age (unpacked
+	// archives, restored backups, clock changes), not only files written a
+	// moment ago. Which stored time a node gets is a function of the tree and
+	// the node's path, so that a witness {tree, request} replays identically.
+	sh := fnv.New32a()
+	sh.Write([]byte(shape))
+	shapeHash := sh.Sum32()
+	for _, k := range keys {
+		cls, mt := mtimeFor(shapeHash, k)
+		if cls == "now" {
+			continue
+		}
+		p := filepath.Join(e.Root, filepath.FromSlash(k))
+		if err := os.Chtimes(p, mt, mt); err != nil {
+			return err
+		}
+		if !e.mtimeSeen[cls] {
+			if e.mtimeSeen == nil {
+				e.mtimeSeen = map[string]bool{}
+			}
+			e.mtimeSeen[cls] = true
+			e.C.Observe("stored_mtime_classes", cls, 1)
+		}
+	}
 	e.cur = shape
 	return nil
+}
+
+// MtimeClasses are the stored modification times Materialise deals out.
+var MtimeClasses = []struct {
+	Name string
+	T    time.Time
+}{
+	{"now", time.Time{}}, {"now", time.Time{}}, {"now", time.Time{}},
+	{"unix-epoch", time.Unix(0, 0)},
+	{"one-second-before-the-epoch", time.Unix(-1, 0)},
+	{"one-second-after-the-epoch", time.Unix(1, 0)},
+	{"half-a-second-after-the-epoch", time.Unix(0, 500000000)},
+	{"half-a-second-before-the-epoch", time.Unix(-1, 500000000)},
+	{"last-nanosecond-of-a-second", time.Unix(1000000000, 999999999)},
+	{"2^31-1", time.Unix(1<<31-1, 0)},
+	{"2^31", time.Unix(1<<31, 0)},
+	{"-2^31", time.Unix(-(1 << 31), 0)},
+	{"dos-epoch-1980", time.Unix(315532800, 0)},
+	{"year-2100", time.Unix(4102444800, 123456789)},
+	{"leap-day-midnight", time.Unix(951782400, 0)},
+}
+
+func mtimeFor(shapeHash uint32, path string) (string, time.Time) {
+	h := fnv.New32a()
+	fmt.Fprintf(h, "%d|%s", shapeHash, path)
+	m := MtimeClasses[h.Sum32()%uint32(len(MtimeClasses))]
+	return m.Name, m.T
 }
 
 // Resp is what the handler answered.
@@ -195,9 +252,13 @@ func BuildRequest(r davtree.Req) (*http.Request, error) {
 		target += "/"
 	}
 	var body io.Reader
+	pfBody, hasPfBody := "", false
+	if r.Method == "PROPFIND" {
+		pfBody, hasPfBody = propfindBody(r.PropBody)
+	}
 	switch {
-	case r.Method == "PROPFIND" && r.PropBody == "five":
-		body = strings.NewReader(FivePropBody)
+	case hasPfBody:
+		body = strings.NewReader(pfBody)
 	case r.HasBody:
 		body = strings.NewReader(r.Body)
 	}
@@ -205,7 +266,7 @@ func BuildRequest(r davtree.Req) (*http.Request, error) {
 	if err != nil {
 		return nil, err
 	}
-	if r.Method == "PROPFIND" && r.PropBody == "five" {
+	if hasPfBody {
 		req.Header.Set("Content-Type", "application/xml; charset=utf-8")
 	}
 	if r.ContentType != "" {
@@ -243,6 +304,9 @@ func BuildRequest(r davtree.Req) (*http.Request, error) {
 	case "nopath":
 		req.Header.Set("Destination", "http://"+Host)
 	}
+	for _, h := range r.Extra {
+		req.Header.Set(h[0], h[1])
+	}
 	return req, nil
 }
 
@@ -267,6 +331,22 @@ func (e *Env) Serve(req *http.Request) Resp {
 			sreq.Body = ioutil.NopCloser(bytes.NewReader(body))
 		}
 	}
+	return e.ServeServerSide(sreq)
+}
+
+// ServeModel is Serve for the request built from r; when r.BreakAfter is set
+// the body the handler reads breaks off with an error after that many bytes
+// (the announced length stays the full one).
+func (e *Env) ServeModel(r davtree.Req, req *http.Request) Resp {
+	if r.BreakAfter == nil {
+		return e.Serve(req)
+	}
+	sreq, err := doubles.ServerRequest(req)
+	if err != nil {
+		return Resp{Code: -1, PanicVal: "cannot serialise request: " + err.Error()}
+	}
+	sreq.Body = ioutil.NopCloser(&breakingBody{data: []byte(r.Body), left: *r.BreakAfter})
+	sreq.ContentLength = int64(len(r.Body))
 	return e.ServeServerSide(sreq)
 }
 
@@ -387,6 +467,17 @@ func owClass(o string) string {
 
 // classOf is the abstract class of a request in a tree (finding-key prefix).
 func classOf(t davtree.Tree, r davtree.Req) string {
+	s := classOfPlain(t, r)
+	if len(r.Extra) > 0 {
+		s += "|hdr=" + r.ExtraTag
+	}
+	if r.BreakAfter != nil {
+		s += "|body-breaks-off"
+	}
+	return s
+}
+
+func classOfPlain(t davtree.Tree, r davtree.Req) string {
 	switch r.Method {
 	case "COPY", "MOVE":
 		rel := "dest-" + r.DestForm
@@ -454,8 +545,12 @@ func (e *Env) Observe(what string, pre davtree.Tree, r davtree.Req, resp Resp, p
 	cls := classOf(pre, r)
 	c.Observe("status_by_method", fmt.Sprintf("%s %d", r.Method, resp.Code), 1)
 	wit := func() interface{} {
-		return map[string]interface{}{"tree": pre.Shape(), "request": r, "status": resp.Code,
+		m := map[string]interface{}{"tree": pre.Shape(), "request": r, "status": resp.Code,
 			"body": trunc(string(resp.Body), 300), "tree_after": postShape}
+		if e.WitExtra != nil {
+			m["slice_case"] = e.WitExtra
+		}
+		return m
 	}
 	if resp.Panicked {
 		c.Report("panic|"+fw.PanicSite(resp.Stack), what+": handler panicked: "+resp.PanicVal, wit())
@@ -470,6 +565,9 @@ func (e *Env) Observe(what string, pre davtree.Tree, r davtree.Req, resp Resp, p
 		c.Distinct("C02|" + r.Method + "|" + cls + "|" + fmt.Sprint(resp.Code))
 		if postShape != preShape {
 			key := fmt.Sprintf("%s|%s|status=%d|tree-changed", r.Method, cls, resp.Code)
+			if e.KeyTag != "" {
+				key = fmt.Sprintf("%s|%s|answered>=400|tree-changed", e.KeyTag, r.Method)
+			}
 			c.Report(key, fmt.Sprintf("%s: answered %d but the tree changed", what, resp.Code), wit())
 		}
 	}
@@ -503,6 +601,16 @@ func (e *Env) Observe(what string, pre davtree.Tree, r davtree.Req, resp Resp, p
 	}
 	if !matched {
 		key := fmt.Sprintf("%s|%s|expect=%s|got=%d:%s", r.Method, cls, davtree.Describe(outs), resp.Code, effectClass(preShape, postShape, outs))
+		if e.KeyTag != "" {
+			// one key per method and kind of divergence: the slice is one class of pre-states
+			div := "refused-where-the-model-succeeds"
+			if ec := effectClass(preShape, postShape, outs); ec != "unchanged" {
+				div = "tree-differs-from-the-model:" + ec
+			} else if resp.Code < 400 {
+				div = fmt.Sprintf("got=%d:unchanged", resp.Code)
+			}
+			key = fmt.Sprintf("%s|%s|%s", e.KeyTag, r.Method, div)
+		}
 		c.Report(key, fmt.Sprintf("%s: model expects %s, server answered %d and the tree is %s", what, davtree.Describe(outs), resp.Code, effectClass(preShape, postShape, outs)), wit())
 		return
 	}
@@ -682,21 +790,7 @@ func (e *Env) checkPropfind(what string, pre davtree.Tree, r davtree.Req, resp R
 		got[cleanHref(p)]++
 		// per-resource content
 		k := pre.Kind(cleanHref(p))
-		rt, code := rs.Prop(davx.NS, "resourcetype")
-		if rt == nil || code != 200 {
-			c.Report("PROPFIND|"+cls+"|resourcetype-missing", fmt.Sprintf("%s: %q has no resourcetype under 200", what, p), wit)
-			continue
-		}
-		isColl := rt.First(davx.NS, "collection") != nil
-		if isColl != (k == davtree.Coll) {
-			c.Report("PROPFIND|"+cls+"|resourcetype-wrong", fmt.Sprintf("%s: %q reported collection=%v, stored kind %v", what, p, isColl, k), wit)
-		}
-		if k == davtree.File {
-			cl, code := rs.Prop(davx.NS, "getcontentlength")
-			if cl == nil || code != 200 || strings.TrimSpace(cl.TextContent()) != fmt.Sprint(len(pre[cleanHref(p)].Data)) {
-				c.Report("PROPFIND|"+cls+"|getcontentlength-wrong", fmt.Sprintf("%s: %q getcontentlength does not equal the stored size", what, p), wit)
-			}
-		}
+		e.checkProps(what, cls, r.PropBody, rs, cleanHref(p), k, pre[cleanHref(p)].Data, wit)
 	}
 	var missing, extra, dup []string
 	for _, w := range want {
@@ -888,7 +982,7 @@ func (e *Env) RunOne(what string, t davtree.Tree, r davtree.Req) (Resp, string) 
 		return Resp{Code: -1}, ""
 	}
 	e.C.Journal(map[string]interface{}{"tree": preShape, "request": r})
-	resp := e.Serve(req)
+	resp := e.ServeModel(r, req)
 	post := e.Snap().Shape()
 	e.cur = post
 	e.Observe(what, t, r, resp, preShape, post)
